@@ -860,7 +860,10 @@ def deep_descs(prop, tier):
     if prop == "C08":
         for g in ((4, 6), (6, 4), (5, 7)) + (((4, 7), (7, 5), (3, 8), (8, 3), (6, 9), (9, 6), (5, 8)) if big else ()):
             out.append(dict(func="active_vertices_not_adjacent_and_not_segmenting", grid=list(g), as_grid=True, form="vars", deep=True))
-            out.append(dict(func="active_vertices_not_adjacent_and_not_segmenting", grid=list(g), as_grid=False, form="vars", deep=True))
+            if g[0] * g[1] <= 40:
+                # the explicit-graph form on a large grid is C04's rank encoder on a large graph: z3 needs minutes per pattern
+                # there (measured: > 9 min for one 6x9 instance); the specialised grid encoding above is what C08 adds
+                out.append(dict(func="active_vertices_not_adjacent_and_not_segmenting", grid=list(g), as_grid=False, form="vars", deep=True))
     if prop == "C09":
         for n in (8, 9, 12, 13):
             out.append(dict(func="active_edges_acyclic", n=n, edges=P(n), form="vars", deep=True))
